@@ -178,6 +178,18 @@ def run_instance(case, part):
         if "extensions" not in dform:
             raise RuntimeError("the implicit extension is not part of the serialization any more")
         return explore(case, part, "2.1", obj, dform, True, case["which"] == "object")
+    if case.get("kind") == "aliased":
+        # the same Python dict / embedded-object INSTANCE at two positions of one object (a shared constant, data loaded with anchors): positions, not instances, are addressed
+        from mc.spec import gen as _gen
+        base = _gen.Gen("2.1").minimal("objects:identity")
+        ext = {"source_name": "s", "url": "u", "hashes": {"MD5": "d41d8cd98f00b204e9800998ecf8427e"}}
+        if case["which"] == "dict":
+            d = dict(base, external_references=[ext, ext], labels=["l1", "l2"])
+            obj = stix2.parse(d, allow_custom=False)
+            return explore(case, part, "2.1", obj, d, True, True)
+        eo = stix2.v21.ExternalReference(**copy.deepcopy(ext))
+        obj = stix2.v21.Identity(**dict({k: v for k, v in base.items() if k != "type"}, external_references=[eo, eo, copy.deepcopy(ext)]))
+        return explore(case, part, "2.1", obj, harness.view(obj, defaults=False), True, True)
     version, key, label = case["version"], case["key"], case["label"]
     wrapped = None
     for k2, l2, i2, w2, loc2 in harness.all_cases(version, keys=[key]):
@@ -292,7 +304,7 @@ def run(run):
         for key, label, inst, wrapped, loc in harness.all_cases(version):
             if th or interesting(label, inst):
                 cases.append({"version": version, "key": key, "label": label})
-    cases += [{"kind": "implicit-extension", "which": "object"}, {"kind": "implicit-extension", "which": "observable"}]
+    cases += [{"kind": "implicit-extension", "which": "object"}, {"kind": "implicit-extension", "which": "observable"}, {"kind": "aliased", "which": "dict"}, {"kind": "aliased", "which": "object"}]
     run.mode = "DEV"
     run.rule = ("per type: maximal + minimal + every generated instance storing a falsy value or equal list elements%s; every path of the instance's JSON form and the near-miss "
                 "paths derived from it x every entry point (2 constructions, 3 queries and 4 mutators on object and dict form); states = distinct (instance, selector); "
